@@ -31,15 +31,16 @@ func (l lineage) clone() lineage {
 
 func c17Genesis() harness.Genesis {
 	t0 := harness.T0.Unix()
-	g := harness.Genesis{Balances: map[string]sdk.Coins{"A": coins(10)}}
-	mk := func(label string, ov int64) {
+	// unbonding takes 30 s here, so that an undelegation completes within the explored block steps
+	g := harness.Genesis{Balances: map[string]sdk.Coins{"A": coins(10)}, UnbondingTime: 30 * time.Second}
+	mk := func(label string, ov, extra int64) {
 		va := vestingtypes.NewContinuousVestingAccountRaw(vestingtypes.NewBaseVestingAccount(authtypes.NewBaseAccountWithAddress(harness.Addr(label)), coins(ov), t0+60), t0)
 		g.Accounts = append(g.Accounts, va)
-		g.ExtraBal = append(g.ExtraBal, banktypes.Balance{Address: harness.AddrS(label), Coins: coins(ov + 2)})
+		g.ExtraBal = append(g.ExtraBal, banktypes.Balance{Address: harness.AddrS(label), Coins: coins(ov + extra)})
 	}
-	mk("GA", 30)
-	mk("NA", 30)
-	mk("UA", 30)
+	mk("GA", 30, 0) // holds nothing but its vesting coins: after delegating and moving the rest its balance is zero
+	mk("NA", 30, 2)
+	mk("UA", 30, 2)
 	g.Vesting = &vtypes.GenesisState{
 		Params:       vtypes.Params{Denom: harness.Denom},
 		VestingTypes: []vtypes.GenesisVestingType{{Name: "t", LockupPeriod: 0, LockupPeriodUnit: "second", VestingPeriod: 60, VestingPeriodUnit: "second", Free: sdk.NewDecWithPrec(5, 1)}},
@@ -108,6 +109,16 @@ func c17Events(thorough bool) []Ev {
 					return nil, ""
 				}
 				return stakingtypes.NewMsgDelegate(harness.Addr(s), harness.ValAddr(), sdk.NewInt64Coin(harness.Denom, 3)), s
+			}},
+			// the unbonding completes in the staking EndBlocker of a block at least 30 s later
+			Ev{Name: "undelegate(" + s + ",2)", Build: func(v View) (sdk.Msg, string) {
+				if !exists(v, s) {
+					return nil, ""
+				}
+				if _, found := v.App.StakingKeeper.GetDelegation(v.Ctx, harness.Addr(s), harness.ValAddr()); !found {
+					return nil, ""
+				}
+				return stakingtypes.NewMsgUndelegate(harness.Addr(s), harness.ValAddr(), sdk.NewInt64Coin(harness.Denom, 2)), s
 			}})
 	}
 	return evs
